@@ -90,6 +90,17 @@ func (c *Ctx) Violation(key, what string, replay interface{}) {
 	c.finds = append(c.finds, Finding{Key: key, What: what, Replay: replay})
 }
 
+// Saturated reports that enough violations were collected; generators skip further replays.
+func (c *Ctx) Saturated() bool {
+	c.mu.Lock()
+	defer c.mu.Unlock()
+	n := 0
+	for _, v := range c.seenKey {
+		n += v
+	}
+	return n >= 40
+}
+
 func (c *Ctx) Note(format string, a ...interface{}) {
 	c.mu.Lock()
 	defer c.mu.Unlock()
@@ -230,9 +241,13 @@ func (c *Ctx) finish() int {
 		c.ev.Coverage["samples"] = []interface{}{}
 	}
 	if c.Replay == "" {
-		os.MkdirAll(filepath.Join(Root, "evidence"), 0o755)
+		evdir := filepath.Join(Root, "evidence")
+		if d := os.Getenv("VERIF_EVIDENCE_DIR"); d != "" {
+			evdir = d
+		}
+		os.MkdirAll(evdir, 0o755)
 		b, _ := json.MarshalIndent(c.ev, "", " ")
-		if err := os.WriteFile(filepath.Join(Root, "evidence", c.ID+".json"), append(b, '\n'), 0o644); err != nil {
+		if err := os.WriteFile(filepath.Join(evdir, c.ID+".json"), append(b, '\n'), 0o644); err != nil {
 			fmt.Fprintln(os.Stderr, "evidence:", err)
 			return 2
 		}
